@@ -152,6 +152,52 @@ def _matrix(rng, routine, sizes):
     return _scale(rng, a), mclass, n
 
 
+def _perturb(rng, prev_op, routine):
+    """A matrix that differs from an earlier input of the history in one or two entries only (same size), still inside the
+    classes the oracle can judge. Includes the exchanges -1 <-> -2 (equal hashes in CPython) and int <-> float."""
+    a = [list(row) for row in prev_op["A"]]
+    n = len(a)
+    pivoted = routine in ("lu_factor", "matrix_inverse", "matrix_determinant", "matrix_pivot")
+    for _ in range(12):
+        b = [list(row) for row in a]
+        how = rng.pick(["m1m2", "m1m2", "bump", "negate_offdiag", "float_same", "swap_rows"])
+        if how == "m1m2":
+            cells = [(i, j) for i in range(n) for j in range(n) if b[i][j] in (-1, -2, -1.0, -2.0)]
+            if not cells:
+                i, j = rng.randrange(n), rng.randrange(n)
+                if i == j and n > 1:
+                    j = (j + 1) % n
+                b[i][j] = rng.pick([-1, -2])
+                base = [list(row) for row in b]
+                b[i][j] = -1 if base[i][j] == -2 else -2
+                a = base            # make the earlier matrix carry the twin as well (returned via 'cand' only: fine)
+            else:
+                i, j = rng.pick(cells)
+                b[i][j] = type(b[i][j])(-3 - b[i][j])
+        elif how == "bump":
+            i, j = rng.randrange(n), rng.randrange(n)
+            b[i][j] = b[i][j] + rng.pick([1, -1])
+        elif how == "negate_offdiag" and n > 1:
+            i = rng.randrange(n)
+            j = (i + 1 + rng.randrange(n - 1)) % n
+            b[i][j] = -b[i][j]
+        elif how == "float_same":
+            b = [[float(v) for v in row] for row in b]
+        elif how == "swap_rows" and n > 1 and pivoted:
+            i = rng.randrange(n)
+            j = (i + 1 + rng.randrange(n - 1)) % n
+            b[i], b[j] = b[j], b[i]
+        fb = R.frm(b)
+        if R.det(fb) == 0:
+            continue
+        _, pb = R.static_pivot(fb)
+        if n <= 4 or all(abs(fb[i][i]) > sum(abs(fb[i][j]) for j in range(n) if j != i) for i in range(n)):
+            if R.min_abs_pivot(pb if pivoted else fb) >= F(1, 64):
+                dom = all(abs(fb[i][i]) > sum(abs(fb[i][j]) for j in range(n) if j != i) for i in range(n))
+                return b, ("dominant" if dom else "general"), n
+    return None
+
+
 def _rhs(rng, n):
     m = rng.randint(1, 3)
     b = _ints(rng, n, m)
@@ -175,12 +221,19 @@ def gen(prop, stream, tier, avoid):
     weights += [("matrix_identity", kn.uniform(0.1, 0.6)), ("helper", kn.uniform(0.0, 0.6)),
                 ("reject", kn.uniform(0.0, 0.2))]
     ops = []
+    perturb_p = kn.pick([0.0, 0.2, 0.5])
     for _ in range(nops):
         if rng.chance(knobs["clear_p"]):
             ops.append({"op": "cache_clear", "which": rng.pick(["identity", "binomial", "both"])})
         r = rng.weighted(weights)
         if r in MATRIX_ROUTINES:
             a, mclass, n = _matrix(rng, r, sizes)
+            prev = [o for o in ops if o["op"] in MATRIX_ROUTINES]
+            if prev and rng.chance(perturb_p):
+                # near-identical inputs in a row: anything keyed on (part of) the input shows its key completeness only then
+                cand = _perturb(rng, rng.pick(prev[-3:]), r)
+                if cand is not None:
+                    a, mclass, n = cand
             if "breakdown" in avoid and mclass == "breakdown":
                 a, mclass = _dominant(rng, n), "dominant"
             op = {"op": r, "A": a, "mclass": mclass, "n": n}
